@@ -30,6 +30,17 @@ Lens == IF Quick THEN {0, 1, 4, 5, 33} ELSE {0, 1, 4, 5, 32, 33, 96}
 ErrLens == {0, 1, 5}
 Values(n, lens) == { [i \in 1..n |-> <<FileNames[i], Body(i, ls[i])>>] : ls \in [1..n -> lens] }
 MaxN == 3
+\* ---- names whose Shift-JIS form is L bytes long: one single-byte character (`tag`), then double-byte characters
+\* (so one of them straddles every even offset such as 64 and 128), then one more single byte if L is even
+LongLens == <<63, 64, 65, 127, 128, 129>>
+LongName(L, tag) ==
+  <<tag>> \o [p \in 1..(2 * ((L - 1) \div 2)) |->
+                IF p % 2 = 1 THEN (IF ((p + 1) \div 2) % 2 = 0 THEN 149 ELSE 130)
+                ELSE (IF (p \div 2) % 2 = 0 THEN 92 ELSE 160)]
+          \o (IF (L - 1) % 2 = 1 THEN <<98>> ELSE <<>>)
+LongValues ==
+  { << <<LongName(LongLens[k], 97), Body(1, 5)>> >> : k \in 1..6 }
+  \cup { << <<LongName(a, 97), Body(1, 0)>>, <<LongName(b, 99), Body(2, 5)>> >> : a \in {65, 129}, b \in {64, 65, 129} }
 
 \* ---- placements
 It(k) == Item(k, 0, <<>>)
@@ -101,7 +112,7 @@ RndSteps == 2000
 
 VARIABLE c
 Init == c = [k |-> "root"]
-PickValue == c.k = "root" /\ c' \in { [k |-> "val", v |-> v] : v \in UNION { Values(n, Lens) : n \in 0..MaxN } }
+PickValue == c.k = "root" /\ c' \in { [k |-> "val", v |-> v] : v \in UNION { Values(n, Lens) : n \in 0..MaxN } \cup LongValues }
 PickLayout == c.k = "val" /\ c' \in { [k |-> "lay", v |-> c.v, lay |-> l, err |-> NoErr] : l \in ConformingLays(c.v) }
 PickError == /\ c.k = "val" /\ \A i \in 1..Len(c.v) : Len(BodyOf(c.v[i])) \in ErrLens
              /\ c' \in { [k |-> "lay", v |-> c.v, lay |-> l, err |-> e] : l \in ErrLays(Len(c.v)), e \in Errs(Len(c.v)) }
